@@ -203,6 +203,25 @@ pub fn eval(ctx: &Ctx, case: &Case) {
                     same_priv(ctx, "Sm2PrivateKey::from_pkcs8_der", &format!("reference-pkcs8/{}/{}/{}", pubform, if with_params { "params" } else { "no-params" }, tag), guard(|| es(Sm2PrivateKey::from_pkcs8_der(&doc))), &d, &cj);
                 }
             }
+            // a document whose embedded public key does NOT belong to d (another key's point, an off-curve point): the
+            // decoder may refuse it, but if it accepts, the key it returns must still be (d, [d]G)
+            {
+                let other = sm2::g_mul(&(&d + 1u32));
+                let (ox, oy) = other.clone().unwrap();
+                let mut off = sm2::encode_point(&other, false);
+                off[64] ^= 0x01;
+                let _ = (ox, oy);
+                for (name, pb) in [("foreign-pub", sm2::encode_point(&other, false)), ("foreign-compressed-pub", sm2::encode_point(&other, true)), ("off-curve-pub", off)] {
+                    let doc = der::pkcs8_encode(&cand(&d), Some(&pb), false);
+                    ctx.call();
+                    match guard(|| es(Sm2PrivateKey::from_pkcs8_der(&doc))) {
+                        Guard::Done(Err(_)) => ctx.outcome(&format!("rejected/pkcs8-{}", name)),
+                        Guard::Done(Ok(k)) if from_limbs(&k.d) == d && ref_point(&k.public_key.point) == want && ref_point(&k.to_public_key().point) == want => ctx.outcome(&format!("ok/pkcs8-{}-ignored", name)),
+                        Guard::Done(Ok(k)) => ctx.violation("Sm2PrivateKey::from_pkcs8_der", &format!("embedded-public-key-adopted/{}", name), format!("d={} public={:?}", hexbig(&d), ref_point(&k.public_key.point).map(|(x, _)| hexbig(&x))), cj()),
+                        Guard::Panic(p) => ctx.violation("Sm2PrivateKey::from_pkcs8_der", &format!("panic/{}/{}", panic_site(&p), name), p, cj()),
+                    }
+                }
+            }
             for (le, name) in [(LineEnding::LF, "LF"), (LineEnding::CRLF, "CRLF")] {
                 ctx.call();
                 match guard(|| es(sk.to_pkcs8_pem(le))) {
@@ -349,6 +368,13 @@ pub fn eval(ctx: &Ctx, case: &Case) {
                             set(&mut enc, &(&sx + p), &sy);
                         }
                     }
+                }
+                // a valid encoding followed by 256 / 65536 further bytes: the length equals a valid one modulo 2^8 / 2^16
+                "valid+256" => enc.extend(std::iter::repeat(0x5au8).take(256)),
+                "valid+65536" => enc.extend(std::iter::repeat(0x5au8).take(65536)),
+                "compressed-valid+256" => {
+                    enc = sm2::encode_point(&pt, true);
+                    enc.extend(std::iter::repeat(0x5au8).take(256));
                 }
                 "tag05" => enc[0] = 0x05,
                 "tag00" => enc[0] = 0x00,
@@ -543,7 +569,7 @@ pub fn run(ctx: &Arc<Ctx>) {
     refmodels::selftest::run(&["sm3", "sm2"]).unwrap_or_else(|e| ctx.machinery_error(format!("reference self-test failed: {}", e)));
     let n = sm2::params().n.clone();
     let pr = sm2::params();
-    ctx.set_rule("keys {1,2,n-2,Annex,seeded,searched for leading/trailing zero bytes, high bit, both parities} through every encoder and decoder (SEC1 both forms, hex both cases, SPKI DER/PEM LF+CRLF, bytes, hex, PKCS#8 DER/PEM) with an independent DER reader on the library's documents; public points with the smallest x and with x within 2^64 of p (both roots), and points held as Jacobian key objects (Z in {2, p-1, seeded}), through every public-key encoder and decoder; 20 OpenSSL key pairs; decoder negatives: every length 0..=130 at Sm2PublicKey::new / from_hex_string / Sm2PrivateKey::new, off-curve and unreduced coordinates and foreign tags via new / hex / SPKI; ASN.1 ciphertext for message lengths {14..30, 120..160, 250..260, 65424..65436, 65534..65537} (every DER length form and the boundaries between them) and {1,32,100} x ephemeral scalars pre-searched so that C1.x / C1.y have 1..3 leading zero bytes, trailing zero bytes or the top bit set x 4 parameter combinations: document = GM/T 0009 SEQUENCE of (C1.x, C1.y, C3, C2) byte for byte, decrypt_asn1 of it, of the reference's and of OpenSSL's documents returns M; malformed documents are refused without a panic.");
+    ctx.set_rule("keys {1,2,n-2,Annex,seeded,searched for leading/trailing zero bytes, high bit, both parities} through every encoder and decoder (SEC1 both forms, hex both cases, SPKI DER/PEM LF+CRLF, bytes, hex, PKCS#8 DER/PEM) with an independent DER reader on the library's documents; public points with the smallest x and with x within 2^64 of p (both roots), and points held as Jacobian key objects (Z in {2, p-1, seeded}), through every public-key encoder and decoder; PKCS#8 documents whose embedded public key belongs to another key or is off the curve (refused, or decoded to (d, [d]G)); 20 OpenSSL key pairs; decoder negatives: every length 0..=130 at Sm2PublicKey::new / from_hex_string / Sm2PrivateKey::new, off-curve and unreduced coordinates, foreign tags and valid encodings followed by 256 / 65536 further bytes via new / hex / SPKI; private keys of 32 + 256k bytes; ASN.1 ciphertext for message lengths {14..30, 120..160, 250..260, 65424..65436, 65534..65537} (every DER length form and the boundaries between them) and {1,32,100} x ephemeral scalars pre-searched so that C1.x / C1.y have 1..3 leading zero bytes, trailing zero bytes or the top bit set x 4 parameter combinations: document = GM/T 0009 SEQUENCE of (C1.x, C1.y, C3, C2) byte for byte, decrypt_asn1 of it, of the reference's and of OpenSSL's documents returns M; malformed documents are refused without a panic.");
     let mut cases: Vec<Case> = Vec::new();
     let mut g = SplitMix::new(ctx.seed, "c19");
     let mut keys: Vec<(String, BigUint)> = vec![("1".into(), BigUint::one()), ("2".into(), BigUint::from(2u32)), ("n-2".into(), &n - 2u32), ("annex".into(), hb(ANNEX_D))];
@@ -605,11 +631,15 @@ pub fn run(ctx: &Arc<Ctx>) {
             cases.push(Case::PrivLen { len, fill });
         }
     }
+    // lengths equal to a valid length modulo 256 / 65536
+    for len in [32usize + 256, 32 + 512, 32 + 65536] {
+        cases.push(Case::PrivLen { len, fill: 0x01 });
+    }
     for len in 0..=140usize {
         cases.push(Case::PubHexLen { len, kind: "prefix".into() });
         cases.push(Case::PubHexLen { len, kind: "nonhex".into() });
     }
-    for kind in ["y+1", "y-1", "x+1", "neg-y-swapped", "zero-zero", "x>=p", "y>=p", "compressed-x>=p", "tag05", "tag00", "tag06", "compressed-nonresidue"] {
+    for kind in ["y+1", "y-1", "x+1", "neg-y-swapped", "zero-zero", "x>=p", "y>=p", "compressed-x>=p", "tag05", "tag00", "tag06", "compressed-nonresidue", "valid+256", "valid+65536", "compressed-valid+256"] {
         for via in ["new", "hex", "spki"] {
             for d in [&keys[3].1, &keys[4].1] {
                 cases.push(Case::PubBad { d: hexbig(d), kind: kind.into(), via: via.into() });
